@@ -168,7 +168,16 @@ def install(it):
         reg('llvm.smax.i%d' % b, smax(b)); reg('llvm.smin.i%d' % b, smin(b))
         def mk_abs(bits):
             from .interp import sext
-            return lambda it, a: abs(sext(it.concretize_int(a[0]), bits)) & ((1 << bits) - 1)
+            def f(it, a):
+                v = it._known(a[0])
+                if type(v) is Node and getattr(it, 'format_witness', False) and it.pathctl is not None:
+                    # decimal formatting of a symbolic integer (diagnostic text only): continue with ONE value the path condition admits,
+                    # without constraining the path (the text produced is that of some admissible value)
+                    w = it.pathctl.witness_value(v)
+                    if w is not None:
+                        return abs(sext(w, bits)) & ((1 << bits) - 1)
+                return abs(sext(it.concretize_int(v), bits)) & ((1 << bits) - 1)
+            return f
         reg('llvm.abs.i%d' % b, mk_abs(b))
         def mk_ctlz(bits):
             return lambda it, a: bits - it.concretize_int(a[0]).bit_length()
@@ -824,6 +833,10 @@ def install_strings(it):
     reg(S_ + '7reserveEv', lambda it, a: None)
     def m_construct_fill(it, a):
         this, n, c = a
+        n = it._known(n)
+        if type(n) is not int:
+            w = it.pathctl.witness_value(n) if (getattr(it, 'format_witness', False) and it.pathctl is not None and type(n) is Node) else None
+            n = w if w is not None else it.concretize_int(n)
         it.store(this, 8, this + 16); it.store(this + 8, 8, 0)
         s_set(it, this, [c & 0xFF] * n)
         return None
